@@ -202,7 +202,7 @@ REGISTRY["C19"] = {
         # one context with a >=25-level code tree needs ~1M symbols: release build, few cases
         job("deep-context", "c19", flavour="release", shards=q(tier, 2, 16), timeout=1800, cases=q(tier, 1, 3),
             max_len=q(tier, 1000000, 1600000), deep=1),
-    ] + ([job("index-release", "c19", flavour="release", shards=16, timeout=3000, cases=1200, max_len=100000,
+    ] + ([job("index-release", "c19", flavour="release", shards=16, timeout=3000, cases=500, max_len=30000,
               max_bits=50000),
           san_job("index-asan", "c19", "asan", cases=200, max_len=3000, max_bits=20000),
           miri_job("miri", "text", programs=64, schedules=1)] if tier == "thorough" else []),
